@@ -28,6 +28,10 @@ def bases():
         for pre in (False, True):
             out.append({'config': dict(cfg), 'dirwatch': True,
                         'transfers': [{'kind': 'download', 'dst': 'path', 'size': size, 'preexisting': pre}]})
+    # the destination name is a symbolic link to an existing ordinary file: published by rename all the same
+    for size in (10, 20):
+        out.append({'config': dict(cfg), 'dirwatch': True,
+                    'transfers': [{'kind': 'download', 'dst': 'path', 'size': size, 'preexisting': True, 'symlink': True}]})
     lcfg = dict(multipart_threshold=16, multipart_chunksize=8, max_concurrency=2, num_download_attempts=2, max_io_queue=2)
     for size in (10, 20):
         out.append({'front_end': 'legacy', 'config': dict(lcfg), 'dirwatch': True,
